@@ -27,6 +27,9 @@ func main() {
 	if only == "" || only == "stream" {
 		phaseStream(r)
 	}
+	if only == "" || only == "handshake" {
+		phaseHandshake(r)
+	}
 	fmt.Println("done")
 	r.Finish()
 }
